@@ -4,50 +4,41 @@ import (
 	"fmt"
 	"io/ioutil"
 	"os"
+
+	"github.com/meshplus/bitxhub-model/pb"
+	"github.com/meshplus/bitxhub/verif/harness"
 )
 
 func init() { workloads["smoke"] = smoke }
 
-// smoke is a scratch probe (not part of any check).
+// smoke is a scratch probe (not part of any check): transfers whose From / To are absent on the wire.
 func smoke(args []string) int {
 	dir, _ := ioutil.TempDir("", "smoke.")
 	defer os.RemoveAll(dir)
-	kr := &kvRun{prop: "C13", dir: dir}
-	if err := kr.open(); err != nil {
+	w, err := harness.OpenWorld(dir, harness.Options{})
+	if err != nil {
 		fmt.Println(err)
 		return 1
 	}
-	addr := kvAddr(0)
-	show := func(tag string) {
-		ok, v := kr.sl.GetState(addr, []byte("k"))
-		ok2, q := kr.sl.QueryByPrefix(addr, "")
-		fmt.Printf("%-28s GetState=(%v,%q nil=%v) Query=(%v,%q)\n", tag, ok, v, v == nil, ok2, q)
-	}
-	commit := func(h uint64) {
-		kr.sl.Finalise(true)
-		a, r := kr.sl.FlushDirtyData()
-		if err := kr.sl.Commit(h, a, r); err != nil {
-			fmt.Println("commit", err)
+	defer w.R.Close()
+	for _, kind := range []string{"to-nil", "from-nil", "both-nil"} {
+		tx := w.Transfer(harness.AdminKey(0), harness.User(1).Addr, "5")
+		if kind != "from-nil" {
+			tx.To = nil
 		}
+		if kind != "to-nil" {
+			tx.From = nil
+		}
+		txs := harness.WireRoundTrip([]pb.Transaction{tx})
+		bt := txs[0].(*pb.BxhTransaction)
+		fmt.Printf("%s: after the wire From=%v To=%v\n", kind, bt.From, bt.To)
+		res, err := w.R.ExecBlock(txs, w.TS+1000, nil)
+		w.TS += 1000
+		if err != nil {
+			fmt.Println(kind, "exec error:", err)
+			continue
+		}
+		fmt.Printf("%s: receipt %v %.80s\n", kind, res.Receipts[0].Status, string(res.Receipts[0].Ret))
 	}
-	kr.sl.SetState(addr, []byte("k"), []byte("v1"), nil)
-	kr.sl.SetState(addr, []byte("j"), []byte("w1"), nil)
-	commit(1)
-	show("after block 1")
-	kr.sl.SetState(addr, []byte("k"), []byte{}, nil)
-	show("empty written, in block")
-	commit(2)
-	show("after block 2 (running)")
-	kr.sl.Close()
-	kr.ldb.Close()
-	kr.open()
-	show("after reopen")
-	kr.sl.SetState(addr, []byte("k"), nil, nil)
-	commit(3)
-	show("deleted, block 3")
-	kr.sl.Close()
-	kr.ldb.Close()
-	kr.open()
-	show("deleted, after reopen")
 	return 0
 }
